@@ -6,7 +6,5 @@ COMMITS="$1"; shift
 cd /repo || exit 2
 [ -n "$(git status --porcelain)" ] && { echo "repo not clean"; exit 2; }
 for c in $COMMITS; do git diff "$c~1" "$c" | git apply -R || { git checkout -- .; exit 2; }; done
-cd /verif/harness && cargo build --offline --profile verif -p vmain 2>&1 | grep -E "^error" -A8
-for id in "$@"; do ./target/verif/vcheck "$id" quick 2>&1 | grep -E "^VIOLATION|sig=" | cut -c1-260; done
+for id in "$@"; do /verif/check "$id" quick 2>&1 | grep -E "^VIOLATION|sig=|BUILD" | cut -c1-260; done
 cd /repo && git checkout -- . && git status --porcelain | head -3
-cd /verif/harness && cargo build --offline --profile verif -p vmain 2>&1 | grep -E "^error" -A8
